@@ -11,3 +11,10 @@ package httpdevice
 //vc:func GetHTTPClient
 //vc:  freshresult
 //vc:  ensures[C09] @wholeExchangeBounded result0 != nil && result0.Timeout == cfg.Timeout * 1000000000
+
+// C16: the HTTP client is built from the configuration alone. The library's
+// default transport and default client take their proxy from the environment
+// of the process (HTTPS_PROXY, NO_PROXY): with them the same inputs give a
+// script in one shell and "Devices unreachable" in another (structural guard).
+//vc:forbidglobal[C16] net/http.DefaultTransport
+//vc:forbidglobal[C16] net/http.DefaultClient
